@@ -18,6 +18,7 @@ import (
 	"bytes"
 	"encoding/json"
 	"fmt"
+	"hash/fnv"
 	"os"
 	"os/exec"
 	"path/filepath"
@@ -107,13 +108,10 @@ func reasonCategory(stage, msg string) string {
 	return "other"
 }
 
-// hygiene classes name the category, not the particular identifier
+// hygiene classes name the group (role and table), not the particular identifier
 func classOf(a *atom) string {
-	if a.hygiene {
-		if i := strings.Index(a.class, ":"); i >= 0 && (strings.HasPrefix(a.class, "param-name=") || strings.HasPrefix(a.class, "method-name=") ||
-			strings.HasPrefix(a.class, "signal-name=") || strings.HasPrefix(a.class, "property-name=")) {
-			return a.class[:i]
-		}
+	if a.hygiene && a.hgroup != "" {
+		return a.hgroup
 	}
 	return a.class
 }
@@ -169,32 +167,91 @@ func (r rawFail) key() string {
 	return k
 }
 
-// verdictAlone generates and type-checks one atom in a package of its own.
-func (c *checker) verdictAlone(a *atom) (ok bool) {
-	idlText := renderIDL("main", []*atom{a})
+// aloneVerdict: what generating and type-checking one atom in a package of
+// its own gave.
+type aloneVerdict struct {
+	ok       bool
+	rejected bool
+	fail     *rawFail
+}
+
+var genNanos int64   // time spent in the generator (under genMu)
+var genMu sync.Mutex // the generator keeps state in package-level variables (idl.InterfaceTypeForStub)
+
+// verdictAlone generates and type-checks one atom in a package of its own
+// (generation one atom at a time, type-checking in parallel).
+func (c *checker) verdictAlone(a *atom) aloneVerdict {
+	pkgName := "main"
+	if a.pkgName != "" {
+		pkgName = a.pkgName
+	}
+	idlText := renderIDL(pkgName, []*atom{a})
+	genMu.Lock()
+	t0 := time.Now()
 	r := generate(idlText)
+	genNanos += time.Since(t0).Nanoseconds()
+	genMu.Unlock()
 	if r.failure == "parse-error" {
 		// not a program of the universe: the property quantifies over the
 		// packages the IDL parser accepts
-		c.mu.Lock()
-		c.rejected = append(c.rejected, a.class)
-		c.mu.Unlock()
-		return false
+		return aloneVerdict{rejected: true}
 	}
 	if r.failure != "" {
-		c.raw = append(c.raw, rawFail{"", a, "compile", reasonCategory(r.failure, r.msg),
+		return aloneVerdict{fail: &rawFail{"", a, "compile", reasonCategory(r.failure, r.msg),
 			fmt.Sprintf("the generator fails on a package accepted by the IDL parser (%s): %s; atom class %s", r.failure, r.msg, a.class),
-			map[string]interface{}{"idl": idlText, "failure": r.failure, "message": r.msg, "class": a.class}})
-		return false
+			map[string]interface{}{"idl": idlText, "failure": r.failure, "message": r.msg, "class": a.class}}}
 	}
 	errs := typeCheck(c.imp, map[string][]byte{"gen.go": r.src})
 	if len(errs) > 0 {
-		c.raw = append(c.raw, rawFail{"", a, "compile", reasonCategory("type-error", errs[0]),
+		return aloneVerdict{fail: &rawFail{"", a, "compile", reasonCategory("type-error", errs[0]),
 			fmt.Sprintf("the generated code does not compile: %s (%d errors); atom class %s", errs[0], len(errs), a.class),
-			map[string]interface{}{"idl": idlText, "failure": "type-error", "errors": errs, "class": a.class}})
-		return false
+			map[string]interface{}{"idl": idlText, "failure": "type-error", "errors": errs, "class": a.class}}}
 	}
-	return true
+	if len(a.actions) > 0 && !implementorRe.Match(r.src) {
+		// accepted, generated, compiles - and holds no stub or proxy at all
+		return aloneVerdict{fail: &rawFail{"", a, "compile", "no-stub-generated",
+			fmt.Sprintf("the generator accepts the package and emits code that declares no <X>Implementor interface: nothing was generated for the interface; atom class %s", a.class),
+			map[string]interface{}{"idl": idlText, "failure": "no-stub-generated", "class": a.class}}}
+	}
+	return aloneVerdict{ok: true}
+}
+
+var implementorRe = regexp.MustCompile(`(?m)^type \w+Implementor interface`)
+
+// verdictsAlone gives every atom its alone verdict; the failures are recorded
+// in the order of the atoms.
+func (c *checker) verdictsAlone(atoms []*atom) (passing []*atom, failed int) {
+	res := make([]aloneVerdict, len(atoms))
+	var wg sync.WaitGroup
+	next := make(chan int, len(atoms))
+	for i := range atoms {
+		next <- i
+	}
+	close(next)
+	for w := 0; w < 8; w++ {
+		wg.Add(1)
+		go func() {
+			defer wg.Done()
+			for i := range next {
+				res[i] = c.verdictAlone(atoms[i])
+			}
+		}()
+	}
+	wg.Wait()
+	for i, a := range atoms {
+		switch {
+		case res[i].ok:
+			passing = append(passing, a)
+		case res[i].rejected:
+			a.rejected = true
+			c.rejected = append(c.rejected, a.class)
+			failed++
+		default:
+			c.raw = append(c.raw, *res[i].fail)
+			failed++
+		}
+	}
+	return passing, failed
 }
 
 func crashLike(fail string) bool {
@@ -324,10 +381,66 @@ func attribute(raw []rawFail, atoms []*atom, driven map[string]int) []string {
 			}
 		}
 	}
+	// identifier hygiene groups: a failure common to every atom of a group (the
+	// ones the IDL parser accepted; at run time: the ones that were driven) is
+	// attributed to the group, any other one to the group and the name
+	hsize := map[string][2]int{} // group -> atoms accepted by the parser, atoms driven
+	hfail := map[string]map[string]bool{}
+	{
+		compileFailed := map[string]bool{}
+		for _, r := range raw {
+			if r.phase == "compile" {
+				compileFailed[r.a.id] = true
+			}
+			if r.a.hgroup != "" {
+				k := r.key() + "|" + r.a.hgroup
+				if hfail[k] == nil {
+					hfail[k] = map[string]bool{}
+				}
+				hfail[k][r.a.id] = true
+			}
+		}
+		for _, a := range atoms {
+			if a.hgroup == "" || a.rejected {
+				continue
+			}
+			n := hsize[a.hgroup]
+			n[0]++
+			if !a.aloneOnly && !compileFailed[a.id] {
+				n[1]++
+			}
+			hsize[a.hgroup] = n
+		}
+	}
+	atomName := map[string]string{}
+	for _, a := range atoms {
+		if a.hgroup != "" {
+			atomName[a.id] = a.hname
+		}
+	}
 	out := make([]string, len(raw))
 	for i, r := range raw {
 		if allOfKind[r.key()] {
 			out[i] = "*"
+			continue
+		}
+		if r.a.hygiene && r.a.hgroup != "" && r.a.hname != "" {
+			size := hsize[r.a.hgroup][0]
+			if r.phase != "compile" {
+				size = hsize[r.a.hgroup][1]
+			}
+			set := hfail[r.key()+"|"+r.a.hgroup]
+			switch {
+			case len(set) >= size:
+				out[i] = r.a.hgroup
+			case r.phase != "compile":
+				// run time: one fingerprint per name (each is confirmed on its own
+				// action; which names fail may differ from run to run when the
+				// failure depends on Go's map order)
+				out[i] = r.a.hgroup + ":" + r.a.hname
+			default:
+				out[i] = r.a.hgroup + ":" + nameSet(set, atomName)
+			}
 			continue
 		}
 		if g := groupOf(r.a); g != "" && groupAll[r.key()+"|"+g] {
@@ -618,6 +731,7 @@ func main() {
 			"Go names of actions are obtained from the repository's own naming functions (MetaObject.ForEachMethodAndSignal, signature.CleanMethodName/CleanName); constructors and the service name are discovered from the generated code by shape",
 			"values: per-type boundary sets (DESIGN.md 1.1) plus the shrinking / equal-size lists of containers, argument tuples one position at a time plus the diagonal; for object-typed positions the full product of the hosting sides over the object positions",
 			"object-typed positions: an object type is an interface of the same package that declares `fn value() -> int32`; objects are equal when value() through both proxies reaches the same implementation (every created object answers with a number of its own) - identifiers are not compared, the stub re-registers a client-side object under a new one; a client-side object is created through the ProxyService of the very service it is passed to (one service reference per service and process, as in examples/space); an object is never passed to itself (its mailbox would wait for itself)",
+			"the only concurrency in the driver is the pair of callers of a created object, parked at gates so that exactly one of them runs at any time; what the two mailboxes do in between is not explored (concurrent callers in general are C04's subject)",
 			"sequential calls, emissions, subscriptions and cancellations from one goroutine on one session of a real in-process directory server over a unix socket under .work/c05 (interleavings of concurrent subscribers are C13's); waits of 20 s; a surplus copy of the last emission of a history is only seen if it arrives within the silence window",
 		}))
 	}
@@ -627,23 +741,22 @@ func main() {
 		finish(map[string]interface{}{"evaluations": 0})
 	}
 	c.imp = imp
-	atoms := buildAtoms(tier)
+	createdHygiene = tier == "thorough"
+	hyg := &hygieneTables{}
+	hyg.tables, hyg.templates, hyg.notes = deriveTables(imp)
+	atoms := buildAtoms(tier, hyg)
 
 	// ---- 1. every atom alone
-	var passing []*atom
-	aloneFail := 0
-	for _, a := range atoms {
-		if c.verdictAlone(a) {
-			passing = append(passing, a)
-		} else {
-			aloneFail++
-		}
-	}
+	passing, aloneFail := c.verdictsAlone(atoms)
+	aloneS := time.Since(start).Seconds()
 	// ---- 2. assemble the compiling atoms into packages
 	const perPkg = 110
 	var special, normal, objects []*atom
+	aloneOnly := 0
 	for _, a := range passing {
 		switch {
+		case a.aloneOnly:
+			aloneOnly++
 		case a.object:
 			objects = append(objects, a)
 		case a.itfName != "":
@@ -653,15 +766,33 @@ func main() {
 		}
 	}
 	var packs [][]*atom
-	for i := 0; i < len(normal); i += perPkg {
-		j := i + perPkg
-		if j > len(normal) {
-			j = len(normal)
+	{
+		byPack := map[string][]*atom{}
+		var keys []string
+		for _, a := range normal {
+			if _, ok := byPack[a.pack]; !ok {
+				keys = append(keys, a.pack)
+			}
+			byPack[a.pack] = append(byPack[a.pack], a)
 		}
-		packs = append(packs, append([]*atom{}, normal[i:j]...))
+		for _, k := range keys {
+			group := byPack[k]
+			for i := 0; i < len(group); i += perPkg {
+				j := i + perPkg
+				if j > len(group) {
+					j = len(group)
+				}
+				packs = append(packs, append([]*atom{}, group[i:j]...))
+			}
+		}
 	}
-	if len(special) > 0 {
-		packs = append(packs, special)
+	for i := 0; i < len(special); i += 40 {
+		// one generated interface (and one service) per atom
+		j := i + 40
+		if j > len(special) {
+			j = len(special)
+		}
+		packs = append(packs, append([]*atom{}, special[i:j]...))
 	}
 	if len(objects) > 0 {
 		// the object family: a package of its own (its interfaces refer to each other)
@@ -675,14 +806,26 @@ func main() {
 	}
 	var builts []*built
 	interplay := 0
-	for pi, pk := range packs {
-		cur := pk
+	// a package whose atoms do not hold together is reduced: the smallest failing
+	// subset is reported and one of its atoms dropped, up to 12 times; a package
+	// that still fails then is split in two halves which are tried on their own
+	// (single atoms compile alone, so this ends). The total number of reductions
+	// is capped: beyond the cap the remaining atoms are counted as not driven
+	// (never an engine error: every reduction already is a reported violation).
+	unassembled := 0
+	reductions := 0
+	const maxReductions = 150
+	queue := append([][]*atom{}, packs...)
+	for pi := 0; len(queue) > 0; pi++ {
+		cur := queue[0]
+		queue = queue[1:]
 		var as assembled
-		for round := 0; round < 12; round++ {
+		for round := 0; round < 12 && len(cur) > 0; round++ {
 			as = c.assemble(cur)
-			if len(as.errs) == 0 {
+			if len(as.errs) == 0 || reductions >= maxReductions {
 				break
 			}
+			reductions++
 			min := c.minimise(cur)
 			mas := c.assemble(min)
 			var ids, classes []string
@@ -713,11 +856,20 @@ func main() {
 				}
 			}
 			cur = next
+			as = assembled{errs: []string{"reduced"}}
 		}
-		if len(as.errs) > 0 || len(cur) == 0 {
-			if len(as.errs) > 0 {
-				chk.EngineError("package %d could not be reduced to a compiling set: %v", pi, as.errs[0])
+		if len(cur) == 0 {
+			continue
+		}
+		if len(as.errs) > 0 {
+			as = c.assemble(cur)
+		}
+		if len(as.errs) > 0 {
+			if reductions >= maxReductions || len(cur) < 2 {
+				unassembled += len(cur)
+				continue
 			}
+			queue = append(queue, append([]*atom{}, cur[:len(cur)/2]...), append([]*atom{}, cur[len(cur)/2:]...))
 			continue
 		}
 		dir := filepath.Join(work, fmt.Sprintf("p%d", pi))
@@ -785,6 +937,10 @@ func main() {
 	nestedClasses := map[string]bool{} // position|class
 	histories, historyEvents := 0, 0   // subscriber histories executed, emissions made in them
 	historyActions := map[string]int{} // kind -> actions whose subscriber histories were driven
+	createdCases := map[string]int{}   // objects made with Create<X>: kind/proxy -> value cases
+	createdActions := map[string]int{} // kind -> actions driven on a created object through both proxies
+	overlaps := map[string]int{}       // two-caller interleavings run on created objects: gate/order -> count
+	overlapMethods := 0
 	const shards = 4
 	var omu sync.Mutex
 	var dwg sync.WaitGroup
@@ -848,6 +1004,18 @@ func main() {
 						historyEvents += r.HistoryEvents
 						if r.Histories > 0 {
 							historyActions[r.Kind]++
+						}
+						for k, n := range r.Created {
+							createdCases[k] += n
+						}
+						if len(r.Created) >= 2 {
+							createdActions[r.Kind]++
+						}
+						for k, n := range r.Overlaps {
+							overlaps[k] += n
+						}
+						if len(r.Overlaps) > 0 {
+							overlapMethods++
 						}
 						if r.Sample != "" && len(samples) < 12 && (driven%17 == 1 || len(samples) < 4) {
 							samples = append(samples, map[string]interface{}{"action": r.Kind + " " + r.IDLName, "class": a.class, "case": r.Sample, "cases": r.Cases, "violations": len(r.Violations)})
@@ -916,6 +1084,7 @@ func main() {
 	if driven < expected {
 		notDriven += expected - driven
 	}
+	notDriven += unassembled
 	if deadlineHit {
 		chk.EngineError("the driving budget of %v ran out: %d of %d actions were not driven (machine overloaded?); the run proves nothing about them", driveBudget, expected-driven, expected)
 	}
@@ -1045,7 +1214,20 @@ func main() {
 	for _, fp := range c.order {
 		f := c.findings[fp]
 		f.replay["atoms"] = firstN(f.atoms, 40)
-		chk.Report(fp, f.what+fmt.Sprintf(" [%d atoms]", len(f.atoms)), f.replay)
+		what := f.what + fmt.Sprintf(" [%d atoms]", len(f.atoms))
+		var names []string
+		for _, ids := range f.atoms {
+			for _, id := range strings.Split(ids, "+") {
+				if a := atomByID[id]; a != nil && a.hgroup != "" {
+					names = append(names, a.hname)
+				}
+			}
+		}
+		if names = uniqStr(names); len(names) > 0 {
+			f.replay["names_failing_this_way"] = names
+			what += fmt.Sprintf(" [names of the group failing this way: %s]", strings.Join(firstN(names, 60), " "))
+		}
+		chk.Report(fp, what, f.replay)
 	}
 	// ---- evidence
 	objectUnits, objectDriven := 0, 0
@@ -1072,21 +1254,27 @@ func main() {
 		"evaluations":         cases + total + historyEvents,
 		"distinct_nontrivial": len(drivenClasses),
 		"rule": "programs: atoms = {echo method, 1-parameter signal, property} x every type of the universe (all 13 scalars; Vec<s>, Map<str,s>, Map<k,int32> for every scalar / key type, tuples, structs, enum; the lists of containers Vec<Vec<int32>>, Vec<Map<str,int32>>, Vec<Lst> with struct Lst{n: int32; l: Vec<int32>}; thorough: Vec<t>, Map<str,t>, Map<int32,t> for every depth-1 container t over every scalar, tuples, structs, enum; nested tuples and structs), " +
-			"action kinds (methods of 0..3 parameters, void or not, signals of 0/2/3 parameters, 2-parameter property), identifier hygiene (Go keywords, predeclared names, the generator's own locals and imported package names as parameter names, reserved and keyword method names, struct member names, interface names) and pairs of colliding names. " +
+			"action kinds (methods of 0..3 parameters, void or not, signals of 0/2/3 parameters, 2-parameter property), identifier hygiene (below) and pairs of colliding names. " +
+			"Identifier hygiene: name tables derived at check time from the tree under test (identifier_hygiene.tables gives their sizes) - Go keywords (go/token), Go's predeclared identifiers (go/types universe), every []string table of meta/signature read from its source (reservedMethods, keywords), the method sets of bus.ObjectProxy, bus.Proxy and bus.Actor (go/types), and what the generated code of a probe package (every action kind, type constructor and declaration kind) declares: methods, imported package names, parameters / receivers / variables / fields, and the package-level identifiers it builds from an interface or structure name (templates such as <interface>Proxy, stub<interface>, Create<interface>, read<struct>); a name belongs to the first table holding it, the hand-written pools of earlier versions stay as a floor. " +
+			"Every name x every identifier role - method, signal, property name; parameter name of a method, of a signal, of a property; structure name; structure member name; enumeration name; enumeration constant; interface name; package name (type-checked only) - in the IDL's usual spelling (first letter lower case) and, thorough tier (interface names: both tiers, and only so: a lower-case interface name never compiles, listed finding), capitalised; template names as structure, enumeration and constant names next to the interface / structure they are built from; plus the hand-written shapes (underscores, case, blank). Every such atom is generated and type-checked alone in both tiers; quick assembles and drives the usual spelling of the method tables in the three action-name roles, of the keywords as method names and of the scope tables (keywords, predeclared, imported packages, generated locals) in the three parameter roles (identifier_hygiene.atoms_alone_verdict_only counts the others), thorough all of them but the package names. " +
+			"A failure common to all names of a (role, table) group is reported under the group; any other generation / compilation failure under the group and the exact set of names failing that way (group:name+name+...; beyond 140 characters their number and a hash, the names are in the replay file), so that a name that starts or stops failing changes the fingerprint; any other run-time failure under the group and the name, one fingerprint per name. " +
 			"Each atom is generated and type-checked alone; the compiling ones are assembled (<=110 per package), compiled with go build and every action is driven with every boundary value (methods: argument tuples one position at a time + diagonal, every return value; signals: every payload through Signal<X> to Subscribe<X>; properties: Set/Get/On<X>Change/Subscribe for every value). " +
 			"Boundary values of a list type are: empty, one item, two items, every boundary value of the item type once; and when the item type is a list, a map or a struct holding one (at any depth): three items whose inner containers have 3, 2, 1 entries and three items whose inner containers have 2, 2, 2 entries (fewer where a bool key allows only 2), scalars numbered consecutively so that all contents are pairwise distinct ([[1,2,3],[4,5],[6]]); these occur as return values, arguments, signal payloads and property values (nested_list_cases counts them by position). " +
 			"Object family (both tiers; thorough adds three objects, scalars of other kinds next to the object, the remaining type pairs): interfaces Early (declared before its users), Late (declared after them), Oa (the user), Node (refers to itself), Ping / Pong (refer to each other), each with `fn value() -> int32`; units = one action each: argument position {(o:T), (n:int32,o:T), (o:T,n:int32), (n:int32,o:T,s:str), void (o:T)} for T in {Early, Late}, two objects {(Early,Late), (Late,Early), (Early,Early), (Early,int32,Late), void (Late,Early)}; result position {make() -> T, make(v:int32) -> T, echo(o:T) -> T, conv(o:T) -> U, pick(o:T,q:T) -> T, a scalar before / after the echoed object}; signal payload sig(o:T); the same positions over Node; take / make / echo between Ping and Pong; `obj` (untyped reference, plain data) as parameter, result, payload and property; and the positions the generator does not support (listed findings, object_units_with_listed_findings): properties of interface type, several-parameter signals and a struct with an object member, objects inside Vec / Map / Tuple as parameter and result. " +
 			"Values of an object position = hosting side: client (created by the caller with the generated Create<X> on Proxy().ProxyService(session): id >= 2^31), service (hosted by the called service, the caller holds a proxy made from the reference), other-service (hosted by the service of the object's own interface); methods take the full product over their object positions, every scalar value once, and the same object in two positions of one type; results are made inside the implementation on its service, or one of the received arguments is handed back; payloads are service / other-service hosted. " +
 			"Oracle: the implementation is reached once, uses every object it received (value()) and returns the combination of what it got; every use succeeds and yields the number of the object passed in that position; the implementations of exactly those objects were invoked, once per use; the caller receives the combination; an object result used by the caller reaches the returned object's implementation exactly once; a subscriber's use of a received object yields the number of the emitted one (object_cases counts value cases by position/hosting side, object_uses the uses made). " +
 			"Subscriber histories on the driver's single session, for every signal and every property whose one-subscriber run was clean: {A alone: every payload}; {A and B together, 3 emissions, both receive each exactly once, cancel B, cancel A}; {subscribe A, subscribe B, cancel A, emit (B receives it once), cancel B, subscribe C, emit 2: C receives each exactly once}; {the same with B cancelled before A}; cancellations are awaited; oracle: the sequence received equals the sequence emitted while subscribed - equal payloads, same order, exactly one copy per emission per subscriber (a copy of any emission but the last one of a history is recognised by order, a surplus after the last one by 40 ms of silence, 300 ms for signals whose emissions are indistinguishable). " +
+			"Objects made with the generated Create<X>(session, service, impl) are served by two mailboxes (service.Add's for remote callers, bus.DirectClient's for the proxy returned to the creator): for every interface one such object is made on the service, and every action whose run on the service's own object was clean (quick: the actions of the type, arity and object-family atoms; thorough: all) is driven again, every value case, through the creator's proxy and through a remote proxy made from the object's reference (the invocation must reach the created object's implementation; object-typed positions and the subscriber histories stay on the service's object) - created_object_cases. " +
+			"Two callers of one created object: for every such method, one fixed interleaving per gate and order, not a schedule exploration: caller 1's invocation is held at a gate in code the implementor owns - (a) inside the method body; (b) when the result holds a dynamic value (`any`), inside that value's Write, which the generated stub calls while it serializes the reply, after half of the value's bytes - while caller 2, through the other proxy, with other arguments and another result (strings of 4 KiB, containers of 3 entries, pairwise distinct contents), runs to completion; then caller 1 is let go; orders: local proxy first, remote proxy first. Oracle: each invocation received its caller's arguments, each caller got the result made for it (two_caller_interleavings counts them by gate/order; 'served-one-after-the-other' would count interleavings where caller 2 could not finish while caller 1 was held: none on the unchanged tree). " +
 			"evaluations = atoms given a verdict + value cases executed + emissions made in subscriber histories; distinct_nontrivial = distinct (action kind, type or hygiene class) pairs whose generated code compiled and was driven with at least one value case",
-		"samples":                               samples,
-		"exhaustive":                            exhaustive,
-		"atoms":                                 total,
-		"atoms_failing_alone":                   aloneFail - len(c.rejected),
-		"atoms_rejected_by_idl_parser":          c.rejected,
-		"atoms_assembled":                       len(passing),
-		"interplay_failures":                    interplay,
+		"samples":                      samples,
+		"exhaustive":                   exhaustive,
+		"atoms":                        total,
+		"atoms_failing_alone":          aloneFail - len(c.rejected),
+		"atoms_rejected_by_idl_parser": firstN(c.rejected, 30),
+		"atoms_assembled":              len(passing),
+		"interplay_failures":           interplay,
+		"atoms_left_unassembled_after_the_reduction_cap": unassembled,
 		"packages_built":                        len(builts),
 		"actions_driven":                        driven,
 		"value_cases":                           cases,
@@ -1096,6 +1284,14 @@ func main() {
 		"subscriber_histories":                  histories,
 		"subscriber_history_emissions":          historyEvents,
 		"actions_with_subscriber_histories":     historyActions,
+		"identifier_hygiene":                    hygieneCoverage(hyg, atoms),
+		"atoms_alone_verdict_only":              aloneOnly,
+		"alone_verdicts_seconds":                aloneS,
+		"alone_verdicts_generator_seconds":      float64(genNanos) / 1e9,
+		"created_object_cases":                  createdCases,
+		"created_object_actions":                createdActions,
+		"two_caller_interleavings":              overlaps,
+		"two_caller_methods":                    overlapMethods,
 		"object_units":                          objectUnits,
 		"object_units_driven":                   objectDriven,
 		"object_cases":                          objectCases,
@@ -1111,6 +1307,24 @@ func main() {
 	}
 	_ = start
 	finish(cov)
+}
+
+// nameSet renders the set of names of a hygiene group that fail in one way:
+// the names themselves, or their number and a hash of the list when that would
+// be too long for a fingerprint (the list is in the replay file).
+func nameSet(ids map[string]bool, nameOf map[string]string) string {
+	var names []string
+	for id := range ids {
+		names = append(names, nameOf[id])
+	}
+	names = uniqStr(names)
+	s := strings.Join(names, "+")
+	if len(s) <= 140 {
+		return s
+	}
+	h := fnv.New32a()
+	h.Write([]byte(s))
+	return fmt.Sprintf("%d-names-%08x", len(names), h.Sum32())
 }
 
 func sortedKeys(m map[string]bool) []string {
